@@ -46,6 +46,8 @@ type FuncContract struct {
 	Trusted    bool // contract assumed; body not checked
 	NoBody     bool
 	GhostEntry []GhostAssign
+	GhostExit  []GhostAssign
+	SafetyKinds []string
 	Loops      map[int]*LoopContract
 	Inline     bool
 	File       string
@@ -280,6 +282,7 @@ func (db *DB) loadContractFile(path, pkgPath string) error {
 		case "safety":
 			cur.Safety = append(cur.Safety, tags...)
 			cur.HasSafety = true
+			cur.SafetyKinds = append(cur.SafetyKinds, strings.Fields(rest)...)
 		case "requires", "ensures", "invariant", "free-ensures", "free-requires", "lemma", "free-invariant":
 			e, err := parse(rest)
 			if err != nil {
@@ -331,7 +334,7 @@ func (db *DB) loadContractFile(path, pkgPath string) error {
 				cur.Modifies = append(cur.Modifies, list...)
 				cur.HasMod = true
 			}
-		case "ghost-entry":
+		case "ghost-entry", "ghost-exit":
 			for _, part := range strings.Split(rest, ";") {
 				lr := strings.SplitN(part, ":=", 2)
 				if len(lr) != 2 {
@@ -345,7 +348,11 @@ func (db *DB) loadContractFile(path, pkgPath string) error {
 				if err != nil {
 					return err
 				}
-				cur.GhostEntry = append(cur.GhostEntry, GhostAssign{le, re})
+				if kw == "ghost-exit" {
+					cur.GhostExit = append(cur.GhostExit, GhostAssign{le, re})
+				} else {
+					cur.GhostEntry = append(cur.GhostEntry, GhostAssign{le, re})
+				}
 			}
 		case "pred":
 			// pred name(a, b) := body
